@@ -13,11 +13,11 @@ import (
 // runtime fault kinds: each is an expression that fails when (and only when) evaluated
 
 type faultKind struct {
-	name      string
-	mk        func() Expr
-	selfCont  bool // needs no global set up by the first BEGIN rule (usable in a selector)
-	stmtOnly  func() Stmt
-	heavy     bool // expensive to run (4096 nested calls): placed at a subset of the positions
+	name     string
+	mk       func() Expr
+	selfCont bool // needs no global set up by the first BEGIN rule (usable in a selector)
+	stmtOnly func() Stmt
+	heavy    bool // expensive to run (4096 nested calls): placed at a subset of the positions
 }
 
 func c11Faults() []faultKind {
@@ -89,7 +89,9 @@ func c11Positions() []faultPos {
 		{"second-call-argument", func(f Expr) []Stmt { return one(Pr(CallE(V("idf"), N("1"), f))) }},
 		{"method-argument", func(f Expr) []Stmt { return one(Pr(Meth(Arr(N("1")), "contains", f))) }},
 		{"array-element", func(f Expr) []Stmt { return one(Pr(Arr(N("1"), f, N("3")))) }},
-		{"object-value", func(f Expr) []Stmt { return one(asg(V("sink"), &ObjectLit{Keys: []string{"a", "k"}, Quoted: []bool{false, false}, Vals: []Expr{N("1"), f}})) }},
+		{"object-value", func(f Expr) []Stmt {
+			return one(asg(V("sink"), &ObjectLit{Keys: []string{"a", "k"}, Quoted: []bool{false, false}, Vals: []Expr{N("1"), f}}))
+		}},
 		{"index-expression", func(f Expr) []Stmt { return one(Pr(Idx(V("varr"), f))) }},
 		{"member-base", func(f Expr) []Stmt { return one(Pr(Mem(&Paren{X: f}, "k"))) }},
 		{"assignment-index", func(f Expr) []Stmt { return one(asg(Idx(V("sink2"), f), N("1"))) }},
@@ -507,7 +509,7 @@ func c11Run(c *Case) {
 func init() {
 	register(&Prop{
 		ID: "C11", Level: "fault_enumeration",
-		Rule: "fault enumeration. (a) syntax splices: a generated valid host program (starting with BEGIN { print 'early' }) x 22 splice kinds (6 illegal bytes, unmatched ) ] }, lone quote, missing operands, return outside a function, break/continue outside a loop, assignment to a literal / arithmetic result / array literal, unterminated string / regex) inserted at a random token boundary or statement position: outcome must be `syntax` with empty stdout. (b) runtime faults: 26 fault kinds x 35 syntactic positions (every operand slot, prefix operand, callee, call/method argument, array element, object value, index, member base, if/while condition, for initialiser/condition/post, for-in iterable, match subject/body expression/body block, print/printf argument, nested blocks) x 3 contexts (BEGIN; pattern rule on the 2nd of 3 elements; function called from END), plus rule pattern, return value, BEGINFILE, ENDFILE and -r selector placements; each planted statement is surrounded by print 'pre' / print 'post'; stdout prefix and `runtime` outcome vs the reference model. Sampled: the same faults planted at random positions of structured programs. Every cell is non-trivial; distinct by (fault, position, context) or program text.",
+		Rule:          "fault enumeration. (a) syntax splices: a generated valid host program (starting with BEGIN { print 'early' }) x 22 splice kinds (6 illegal bytes, unmatched ) ] }, lone quote, missing operands, return outside a function, break/continue outside a loop, assignment to a literal / arithmetic result / array literal, unterminated string / regex) inserted at a random token boundary or statement position: outcome must be `syntax` with empty stdout. (b) runtime faults: 26 fault kinds x 35 syntactic positions (every operand slot, prefix operand, callee, call/method argument, array element, object value, index, member base, if/while condition, for initialiser/condition/post, for-in iterable, match subject/body expression/body block, print/printf argument, nested blocks) x 3 contexts (BEGIN; pattern rule on the 2nd of 3 elements; function called from END), plus rule pattern, return value, BEGINFILE, ENDFILE and -r selector placements; each planted statement is surrounded by print 'pre' / print 'post'; stdout prefix and `runtime` outcome vs the reference model. Sampled: the same faults planted at random positions of structured programs. Every cell is non-trivial; distinct by (fault, position, context) or program text.",
 		NumCases:      c11Cases,
 		Run:           c11Run,
 		MinConclusive: func(tier string) int { return 8000 },
